@@ -84,6 +84,13 @@ def shapes(tier, seed):
                     if q and (ci + pi + k) % 2:
                         continue
                     out.append(('req', ci, pi, sg, ('slice', 'vec', 'ops')[(ci + k) % 3], vals))
+    # SignedHeaders entries are compared as presented: an entry spelled with capitals names no header of the (lower-case) header map,
+    # so the required header is NOT signed although a case-insensitive look would find it
+    for rt in ('slice', 'vec', 'ops'):
+        out.append(('req', 1, 1, ('host', 'x-amz-date', 'Content-Type'), rt))
+        out.append(('req', 2, 2, ('host', 'x-amz-date', 'ETag', 'x-other'), rt))
+        out.append(('req', 3, 4, ('host', 'x-amz-date', 'X-Amz-Meta-A', 'x-amz-meta-b'), rt))
+        out.append(('req', 3, 4, ('host', 'x-amz-date', 'x-amz-meta-a', 'X-AMZ-META-B'), rt))
     # host itself unsigned / :authority signed instead
     for pi in (0, 1):
         out.append(('req', 0, pi, ('x-amz-date',), 'slice'))
